@@ -203,6 +203,36 @@ func c10Job(raw json.RawMessage) (any, error) {
 	routers = append(routers, rt{"empty-router", mk(""), false})
 	domRouter := mk("https://h")
 
+	// without parameters the facades are still shorthand: whatever Router.URL answers for the concatenated pattern
+	// (with the URL domain in front), Prefix.URL and Resource.URL answer the same
+	for _, d := range []struct {
+		name string
+		r    *Router
+	}{{"router", routers[len(routers)-1].r}, {"router+domain", domRouter}} {
+		for _, strict := range []bool{false, true} {
+			for _, ps := range []map[string]string{nil, {}} {
+				var s string
+				var err error
+				pv, bad := Guard(func() { s, err = d.r.URL(strict, it.Pattern, ps) })
+				base := res(s, err, pv, bad)
+				label := fmt.Sprintf("%s strict=%v params=%v(nil=%v)", d.name, strict, ps, ps == nil)
+				for _, cut := range []int{0, len(it.Pattern) / 2, len(it.Pattern)} {
+					pre, post := it.Pattern[:cut], it.Pattern[cut:]
+					pv, bad = Guard(func() { s, err = d.r.Prefix(pre).URL(strict, post, ps) })
+					out.Evals++
+					if got := res(s, err, pv, bad); got != base {
+						rep("C10.facade", "prefix-url-differs:no-params", fmt.Sprintf("Prefix(%q).URL(%q) %s", pre, post, label), got, "as Router.URL: "+base)
+					}
+				}
+				pv, bad = Guard(func() { s, err = d.r.Resource(it.Pattern).URL(strict, ps) })
+				out.Evals++
+				if got := res(s, err, pv, bad); got != base {
+					rep("C10.facade", "resource-url-differs:no-params", "Resource.URL "+label, got, "as Router.URL: "+base)
+				}
+			}
+		}
+	}
+
 	allMaps(keysAll, vals, func(ps map[string]string) {
 		label := "params=" + paramsLabel(ps)
 		// expected non-strict result (params non-empty)
